@@ -162,7 +162,8 @@ Lemma next_token_start : forall fuel s pre,
   linv inp s pre -> (length (rest s) < fuel)%nat ->
   match next_token_fuel fuel s with
   | (LTok t, s') =>
-      (exists x, Forall skippable x /\ pfx (pre ++ x) inp /\ tstart t = P (pre ++ x)) /\
+      (exists x, Forall skippable x /\ pfx (pre ++ x) inp /\ tstart t = P (pre ++ x) /\
+                 (ty t = EOL -> pfx ((pre ++ x) ++ [10%N]) inp /\ tend t = tstart t)) /\
       (ty t <> EOL -> not_nl s') /\
       (ty t = COMMENT \/ ty t = EOL -> fst (tend t) = fst (tstart t))
   | (LEof, _) => exists x, Forall skippable x /\ inp = pre ++ x
@@ -179,8 +180,11 @@ Proof.
     pose proof (lc_pos _ _ _ _ Hc) as Hpos.
     assert (Hfull : pfx (pre ++ []) inp).
     { rewrite app_nil_r. eapply pfx_trans; [apply pfx_app|apply (lcur_full inp _ _ _ Hc)]. }
-    assert (Hstart : exists x, Forall skippable x /\ pfx (pre ++ x) inp /\ get_pos (next s) = P (pre ++ x)).
-    { exists []. split; [constructor|]. split; [exact Hfull|]. rewrite app_nil_r. exact Hpos. }
+    assert (Hstart : forall typ en, (typ = EOL -> c = 10%N /\ en = get_pos (next s)) ->
+              exists x, Forall skippable x /\ pfx (pre ++ x) inp /\ get_pos (next s) = P (pre ++ x) /\
+                        (typ = EOL -> pfx ((pre ++ x) ++ [10%N]) inp /\ en = get_pos (next s))).
+    { intros typ en Hty. exists []. split; [constructor|]. split; [exact Hfull|]. rewrite app_nil_r.
+      split; [exact Hpos|]. intros H. destruct (Hty H) as [-> Hen]. split; [apply (lcur_full inp _ _ _ Hc)|exact Hen]. }
     assert (Heol : eol_ok (next s)) by apply next_eol_ok.
     assert (Hlen : (length (rest (next s)) < f)%nat).
     { destruct (next_rest_cons s c t Hr) as [-> _]. cbn in Hf. lia. }
@@ -188,22 +192,26 @@ Proof.
     assert (Hlit : forall typ (r : lres (list N)),
               (forall l s', r = ROk l s' -> (typ <> EOL -> not_nl s') /\
                                            (typ = COMMENT \/ typ = EOL -> fst (get_pos s') = fst (get_pos (next s)))) ->
+              typ <> EOL ->
               match lift_lit typ (get_pos (next s)) r (next s) with
               | (LTok t0, s') =>
-                  (exists x, Forall skippable x /\ pfx (pre ++ x) inp /\ tstart t0 = P (pre ++ x)) /\
+                  (exists x, Forall skippable x /\ pfx (pre ++ x) inp /\ tstart t0 = P (pre ++ x) /\
+                             (ty t0 = EOL -> pfx ((pre ++ x) ++ [10%N]) inp /\ tend t0 = tstart t0)) /\
                   (ty t0 <> EOL -> not_nl s') /\
                   (ty t0 = COMMENT \/ ty t0 = EOL -> fst (tend t0) = fst (tstart t0))
               | (LEof, _) => exists x, Forall skippable x /\ inp = pre ++ x
               | _ => True
               end).
-    { intros typ r Hr0. destruct r as [l s'|d s'|]; cbn; auto.
-      destruct (Hr0 l s' eq_refl) as [A B]. split; [exact Hstart|]. split; assumption. }
+    { intros typ r Hr0 Hne. destruct r as [l s'|d s'|]; cbn; auto.
+      destruct (Hr0 l s' eq_refl) as [A B]. split; [apply Hstart; intros H; congruence|]. split; assumption. }
     destruct (op_of c) as [op|] eqn:Eop.
-    { cbn. split; [exact Hstart|]. split; [|reflexivity].
+    { cbn. split; [apply Hstart; intros ->; exfalso; revert Eop; unfold op_of, model_operators; cbn [assoc_N];
+                   repeat (match goal with |- context [N.eqb ?k c] => destruct (N.eqb k c) end; [intros [= H]; discriminate|]);
+                   discriminate|]. split; [|reflexivity].
       intros _. unfold not_nl. rewrite Hch. intros [= ->]. rewrite op_of_10 in Eop. discriminate. }
     destruct (N.eqb c 47) eqn:E47.
     { destruct (opt_eq (peek (next s)) 47) eqn:E1.
-      - apply Hlit. intros l s' E. unfold lex_line_comment in E.
+      - apply Hlit; [|discriminate]. intros l s' E. unfold lex_line_comment in E.
         assert (Hn1 : not_nl (next (next s))).
         { unfold peek, opt_eq in E1. destruct (rest (next s)) as [|w t2] eqn:Hr2; [discriminate|].
           apply N.eqb_eq in E1. subst w. unfold not_nl, next at 1. rewrite Hr2. cbn. discriminate. }
@@ -212,16 +220,16 @@ Proof.
         apply next_line. apply not_nl_eol; [exact Heol|]. unfold not_nl. rewrite Hch.
         apply N.eqb_eq in E47. subst c. discriminate.
       - destruct (opt_eq (peek (next s)) 42) eqn:E2.
-        + apply Hlit. intros l s' E. unfold lex_block_comment in E.
+        + apply Hlit; [|discriminate]. intros l s' E. unfold lex_block_comment in E.
           split; [intros _; eapply block_comment_not_nl; eauto|]. intros [H|H]; discriminate.
-        + apply Hlit. intros l s' E. unfold lex_regex in E.
+        + apply Hlit; [|discriminate]. intros l s' E. unfold lex_regex in E.
           split; [intros _; eapply regex_not_nl; eauto|]. intros [H|H]; discriminate. }
     destruct (N.eqb c 34) eqn:E34.
-    { apply Hlit. intros l s' E. unfold lex_string in E. rewrite Hch in E.
+    { apply Hlit; [|discriminate]. intros l s' E. unfold lex_string in E. rewrite Hch in E.
       split; [intros _; eapply string_not_nl; [|exact E]; apply N.eqb_eq in E34; subst c; discriminate|].
       intros [H|H]; discriminate. }
     destruct (N.eqb c 124) eqn:E124.
-    { apply Hlit. intros l s' E. unfold lex_description_line in E.
+    { apply Hlit; [|discriminate]. intros l s' E. unfold lex_description_line in E.
       destruct (skip_whitespace (S (length (rest (next s)))) (next s)) as [s1|] eqn:Es; [|discriminate].
       assert (Hn0 : not_nl (next s)).
       { unfold not_nl. rewrite Hch. apply N.eqb_eq in E124. subst c. discriminate. }
@@ -229,13 +237,14 @@ Proof.
       destruct (take_line_line _ _ _ _ _ B1 C1 E) as (A & B & C).
       split; [intros _; exact C|]. intros [H|H]; discriminate. }
     destruct (N.eqb c 10) eqn:E10.
-    { cbn. split; [exact Hstart|]. split; [intros H; exfalso; apply H; reflexivity|reflexivity]. }
+    { cbn. split; [apply Hstart; intros _; split; [lia|reflexivity]|]. split; [intros H; exfalso; apply H; reflexivity|reflexivity]. }
     destruct (is_space c) eqn:Esp.
     { specialize (IH (next s) (pre ++ [c]) (lc_inv _ _ _ _ Hc) Hlen).
       destruct (next_token_fuel f (next s)) as [[t0|d| |] s']; auto.
-      - destruct IH as ((x & Hx & Hp & Hs) & Hrest). split; [|exact Hrest].
+      - destruct IH as ((x & Hx & Hp & Hs & He) & Hrest). split; [|exact Hrest].
         exists (c :: x). split; [constructor; [split; [exact Esp|lia]|exact Hx]|].
-        rewrite <- app_assoc in Hp, Hs. cbn [app] in Hp, Hs. auto.
+        assert (Heq : pre ++ c :: x = (pre ++ [c]) ++ x) by (rewrite <- app_assoc; reflexivity).
+        rewrite Heq. auto.
       - destruct IH as (x & Hx & Hp). exists (c :: x). split; [constructor; [split; [exact Esp|lia]|exact Hx]|].
         rewrite <- app_assoc in Hp. exact Hp. }
     assert (Hn0 : not_nl (next s)).
@@ -243,16 +252,19 @@ Proof.
     destruct (is_digit c).
     { unfold lex_number.
       destruct (number_loop (S (length (rest (next s)))) (next s) false (ch_list (next s))) as [[typ l] s'|d s'|] eqn:En; auto.
-      cbn. split; [exact Hstart|]. split; [intros _; eapply number_not_nl; eauto|].
-      destruct (number_loop_type _ _ _ _ _ _ _ En) as [-> | ->]; intros [H|H]; discriminate. }
+      cbn. destruct (number_loop_type _ _ _ _ _ _ _ En) as [-> | ->];
+        (split; [apply Hstart; intros H; discriminate|]; split; [intros _; eapply number_not_nl; eauto|intros [H|H]; discriminate]). }
     destruct (is_letter c).
     { unfold lex_ident.
       destruct (ident_loop (S (length (rest (next s)))) (next s) (ch_list (next s))) as [l s'|d s'|] eqn:Ei; auto.
       destruct (list_N_eqb l lit_true || list_N_eqb l lit_false)%bool; cbn;
-        (split; [exact Hstart|]; split; [intros _; eapply ident_not_nl; eauto|intros [H|H]; discriminate]). }
+        (split; [apply Hstart; intros H; discriminate|]; split; [intros _; eapply ident_not_nl; eauto|intros [H|H]; discriminate]). }
     exact I.
 Qed.
 End Cover.
+
+Lemma ttype_eq_dec (a b : ttype) : {a = b} + {a <> b}.
+Proof. decide equality. Qed.
 
 (* ---- AllTokens: line structure and coverage ----------------------------------------------- *)
 (* after a token that is not EOL, the next token starts on the line where it ended;
@@ -267,7 +279,7 @@ Fixpoint lchain (prev : option token) (ts : list token) : Prop :=
 
 (* the rune c that follows prefix q is white space or lies inside a token *)
 Definition covered (inp : list N) (ts : list token) (q : list N) (c : N) : Prop :=
-  is_space c = true \/ exists t, In t ts /\ pos_le (tstart t) (P q) /\ pos_le (P q) (tend t).
+  is_space c = true \/ exists t, In t ts /\ ty t <> EOL /\ pos_le (tstart t) (P q) /\ pos_le (P q) (tend t).
 
 Lemma pfx_of_len (a b l : list N) : pfx a l -> pfx b l -> (length a <= length b)%nat -> pfx a b.
 Proof.
@@ -282,7 +294,7 @@ Proof.
 Qed.
 
 Lemma covered_weaken inp t ts q c : covered inp ts q c -> covered inp (t :: ts) q c.
-Proof. intros [H|(t0 & Hi & H1 & H2)]; [left; exact H|]. right. exists t0. split; [right; exact Hi|auto]. Qed.
+Proof. intros [H|(t0 & Hi & H0 & H1 & H2)]; [left; exact H|]. right. exists t0. split; [right; exact Hi|auto]. Qed.
 
 Lemma all_tokens_loop_cover inp ff : forall fuel s pre prev,
   linv inp s pre -> (length (rest s) + 1 < fuel)%nat ->
@@ -299,7 +311,7 @@ Proof.
   destruct (next_token_fuel (S (length (rest s))) s) as [[t|d| |] s'] eqn:E; cbn in Hn.
   - (* token *)
     destruct Hn as [(ps & pe & c0 & H1 & H2 & H3 & H4 & H5 & H6) Hty]; [lia|].
-    destruct Hn2 as ((x & Hx & Hpx & Hsx) & Hnn & Hsl); [lia|].
+    destruct Hn2 as ((x & Hx & Hpx & Hsx & Heolr) & Hnn & Hsl); [lia|].
     assert (Hps : ps = pre ++ x).
     { apply (P_inj _ _ inp); [eapply pfx_trans; [apply pfx_app|exact H2]|exact Hpx|congruence]. }
     assert (Hxnl : Forall (fun c => c <> 10%N) x).
@@ -318,9 +330,20 @@ Proof.
         { apply (in_gap pre q x c Hq). rewrite <- Hps. apply (pfx_of_len _ _ inp); auto.
           rewrite app_length. cbn. lia. }
         rewrite Forall_forall in Hx. apply (Hx c Hin).
-      - right. exists t. split; [left; reflexivity|]. rewrite H4, H5. split; apply P_mono.
-        + apply (pfx_of_len _ _ inp); auto.
-        + apply (pfx_of_len _ _ inp); auto. }
+      - destruct (ttype_eq_dec (ty t) EOL) as [Heq|Hneq].
+        + (* an EOL token is the newline rune itself *)
+          left. destruct (Heolr Heq) as [Hnl Hse].
+          assert (Hpe : pe = ps).
+          { apply (P_inj _ _ inp); auto. congruence. }
+          assert (Hqps : q = ps).
+          { subst pe. destruct (pfx_of_len ps q inp Hpsinp Hqinp Hge) as [u ->].
+            rewrite app_length in Hl. destruct u; [apply app_nil_r|cbn in Hl; lia]. }
+          subst q. rewrite <- Hps in Hnl. destruct Hqc as [u Hu], Hnl as [v Hv]. rewrite Hv in Hu.
+          rewrite <- !app_assoc in Hu. apply app_inv_head in Hu. cbn in Hu. injection Hu as <- _.
+          vm_compute. reflexivity.
+        + right. exists t. split; [left; reflexivity|]. split; [exact Hneq|]. rewrite H4, H5. split; apply P_mono.
+          * apply (pfx_of_len _ _ inp); auto.
+          * apply (pfx_of_len _ _ inp); auto. }
     destruct H6 as [[c Hc]|[He Hpe]].
     + specialize (IH s' (pe ++ [c]) (Some t) (lc_inv _ _ _ _ Hc)).
       destruct (all_tokens_loop f ff s') as [[ts ds] b].
